@@ -744,9 +744,37 @@ class PathResult:
 
 
 def explore(world, run_path, max_paths=4000):
+    # wall-clock limit for the symbolic execution of ONE function (a change to it can make the paths or the feasibility queries
+    # explode: minutes of CPU and gigabytes before anything is reported).  Past the limit the function is reported as outside the
+    # subset (undecided); a watchdog thread also interrupts a solver call that does not honour its own timeout
+    import threading
+    import time as _time
+    limit = float(os.environ.get('PYVC_EXPLORE_LIMIT_S', '240'))
+    t_end = _time.time() + limit
+    stop = threading.Event()
+
+    def _watch():
+        while not stop.wait(5.0):
+            if _time.time() > t_end:
+                try:
+                    z3.main_ctx().interrupt()
+                except Exception:
+                    pass
+    th = threading.Thread(target=_watch, daemon=True)
+    th.start()
+    try:
+        return _explore(world, run_path, max_paths, t_end, limit)
+    finally:
+        stop.set()
+
+
+def _explore(world, run_path, max_paths, t_end, limit):
+    import time as _time
     work = [[]]
     results = []
     while work:
+        if _time.time() > t_end:
+            raise OutOfSubset('symbolic execution of this function exceeded %d s (%d paths so far)' % (limit, len(results)))
         dec = work.pop()
         ctx = Ctx(world, dec)
         try:
